@@ -11,6 +11,11 @@ Core Lean only.  Model of `pyrex.internal_functions.LazyMutableClass` / `lazy_pr
   `mutate` (in-place change of the object stored in an attribute: subscript store, `append`, …; no
   `__setattr__`), `clear` (`self._clear_cache()`), `read` (evaluation of a lazy property);
 * `compute p attrs` is what a freshly constructed object with these attributes reports for `p`.
+* An augmented assignment `self.x += d` (and "fetch the array, edit it, assign it back") is the
+  in-place `mutate x` followed by `assign x` with the mutated object as value.  `assign` clears on
+  the attribute *name* whatever the value is - also when the value is the object the attribute
+  already holds - exactly as `LazyMutableClass.__setattr__` does; the translator checks that the
+  `_clear_cache()` call in `__setattr__` is unconditional inside the name test.
 
 The per-method effect tables (`Method`) and the per-class dependency tables (`ClassInfo`) are
 *generated* from the pyrex sources into `PyrexVerif/Gen/LazyOps.lean`, `PyrexVerif/Gen/LazyDeps.lean`.
